@@ -612,7 +612,7 @@ func main() {
 }
 
 func genC19(cfg *hx.Config, w *hx.Writer, r *rand.Rand, add func(Case, string)) {
-	maxLen := 5
+	maxLen := 4
 	if cfg.Thorough() {
 		maxLen = 7
 	}
